@@ -60,6 +60,7 @@ type RunSpec struct {
 	InitSeed uint64   `json:"init_seed"`
 	Env      []string `json:"env"`
 	AbsPaths bool     `json:"abs_paths,omitempty"` // destination paths made absolute (inside the run dir)
+	Uid      int      `json:"uid,omitempty"`       // run the worker as this user (setpriv)
 	Script   Script   `json:"script"`
 	ProgKeys []string `json:"prog_keys"` // content hash of each script source
 }
@@ -176,6 +177,24 @@ func drawProcEnv(r *RNG, native bool) []string {
 		env = append(env, "LANG="+l)
 	}
 	env = append(env, "HOME="+pick(r, []string{"/root", "/nonexistent", "/tmp"}))
+	if r.Chance(1, 2) {
+		env = append(env, "USER="+pick(r, []string{"root", "nobody", "kawai"}), "LOGNAME="+pick(r, []string{"root", "nobody"}))
+	}
+	if r.Chance(1, 2) {
+		env = append(env, "TMPDIR="+pick(r, []string{"/tmp", "/dev/shm", "/nonexistent-tmp"}))
+	}
+	if r.Chance(1, 3) {
+		env = append(env, "SOURCE_DATE_EPOCH="+pick(r, []string{"0", "1", "1700000000", "4102444800"}))
+	}
+	if r.Chance(1, 3) {
+		env = append(env, "LC_ALL="+pick(r, []string{"C", "ja_JP.SJIS", "POSIX"}))
+	}
+	if r.Chance(1, 3) {
+		env = append(env, "HOSTNAME="+pick(r, []string{"build1", "localhost"}), "TERM="+pick(r, []string{"dumb", "xterm-256color"}))
+	}
+	if r.Chance(1, 4) {
+		env = append(env, "NO_COLOR=1")
+	}
 	if native {
 		env = append(env, "GOGC="+pick(r, []string{"100", "10", "400", "off"}))
 		env = append(env, "GOMAXPROCS="+pick(r, []string{"1", "4", "16"}))
@@ -188,6 +207,9 @@ func refSpec(variant string, pp *PoolProg, seed uint64) *RunSpec {
 	spec := &RunSpec{Variant: variant, Seed: seed, InitSeed: r.U64() % 1000000007, ProgKeys: []string{pp.Key}}
 	spec.Env = drawProcEnv(r, variant == "native")
 	spec.AbsPaths = r.Chance(1, 2)
+	if r.Chance(1, 4) {
+		spec.Uid = 65534
+	}
 	sc := Script{Sources: []string{base64.StdEncoding.EncodeToString(pp.Src)}, Paths: []string{pick(r, destNames)}, Sim: variant == "sim"}
 	if variant == "sim" {
 		sc.Ops = append(sc.Ops, Op{Op: "clock", Ns: int64(r.U64() % uint64(200*365*24*time.Hour))})
@@ -434,6 +456,9 @@ func genHistory(seed uint64, variant string, pool []*PoolProg, admitted []int) *
 	spec := &RunSpec{Variant: variant, Seed: seed, InitSeed: r.U64() % 1000000007}
 	spec.Env = drawProcEnv(r, !sim)
 	spec.AbsPaths = r.Chance(1, 4)
+	if r.Chance(1, 8) {
+		spec.Uid = 65534
+	}
 	// program selection: 3..8, twins together when possible
 	want := r.Range(3, 8)
 	if want > len(admitted) {
@@ -802,7 +827,12 @@ func (c *simCtx) runSpecKeep(spec *RunSpec, before func(dir string, sc *Script))
 	}
 	env := baseEnv("VERIFSIM_SCRIPT="+sp, "VERIFSIM_JOURNAL="+jp, fmt.Sprintf("VERIFSIM_INIT_SEED=%d", spec.InitSeed))
 	env = append(env, spec.Env...)
-	pr := runProc(workerWatchdog, dir, env, bin, "-test.run=^TestWorker$", "-test.timeout=0", "-test.count=1")
+	argv := []string{bin, "-test.run=^TestWorker$", "-test.timeout=0", "-test.count=1"}
+	if spec.Uid != 0 {
+		os.Chmod(dir, 0777)
+		argv = append([]string{"setpriv", fmt.Sprintf("--reuid=%d", spec.Uid), fmt.Sprintf("--regid=%d", spec.Uid), "--clear-groups"}, argv...)
+	}
+	pr := runProc(workerWatchdog, dir, env, argv...)
 	if pr.TimedOut {
 		infraFail("worker watchdog (%v) expired; stderr: %s", workerWatchdog, clip(pr.Stderr, 400))
 	}
